@@ -509,7 +509,41 @@ class Spec(object):
         return vs
 
 
+def default_argv_probe():
+    """ArgvArgs() without a list wraps the process's own sys.argv: wrapping it (three times over) and parsing must leave
+    sys.argv as it was, and every wrap must see the same script name and tokens."""
+    import sys
+    from clikit.api.args.format import ArgsFormat, Argument, Option
+    from clikit.args import ArgvArgs
+    from clikit.args.default_args_parser import DefaultArgsParser
+    saved = sys.argv
+    mine = ["prog", "srv", "--port", "80", "--", "x"]
+    case = {"probe": "default-argv"}
+    try:
+        sys.argv = list(mine)
+        fmt = ArgsFormat([Option("port", "p", Option.REQUIRED_VALUE), Argument("items", Argument.MULTI_VALUED)])
+        seen = []
+        for _ in range(3):
+            raw = ArgvArgs()
+            seen.append((raw.script_name, list(raw.tokens)))
+            DefaultArgsParser().parse(raw, fmt, True)
+            if sys.argv != mine:
+                return [report.viol("argv-altered:sys.argv", "wrapping / parsing the process's own argument list (ArgvArgs() without a "
+                                    "list) altered sys.argv", case, mine, list(sys.argv))]
+        if any(x != ("prog", mine[1:]) for x in seen):
+            return [report.viol("argv-altered:sys.argv:tokens", "ArgvArgs() sees another script name / other tokens when sys.argv is "
+                                "wrapped again", case, ["prog", mine[1:]], [list(x) for x in seen])]
+    except Exception as e:  # noqa
+        return [report.viol("crash:" + report.exc_site(e), "ArgvArgs() / parse raised %r" % (e,), case)]
+    finally:
+        sys.argv = saved
+    return []
+
+
 def replay(case):
+    if isinstance(case, dict) and case.get("probe") == "default-argv":
+        vs = default_argv_probe()
+        return vs[0] if vs else None
     return explore.replay(Spec(), case)
 
 
@@ -590,6 +624,9 @@ def main():
     _TABLE.update(table)
     outcomes = collections.Counter("ok" if "ok" in o else o["raised"] for o in table.values())
 
+    rep.merge(default_argv_probe())
+    rep.part("default-argv-probe", what="ArgvArgs() over the process's own sys.argv (a list), wrapped and parsed three times: sys.argv unchanged, "
+                                        "same script name and tokens every time")
     spec = Spec(core + [extra], table)
     aborted = False
     depth = 8 if thorough else 6
